@@ -4,6 +4,7 @@ package harness
 
 import (
 	"fmt"
+	"testing"
 
 	"github.com/go-gts/gts"
 	"pgregory.net/rapid"
@@ -253,4 +254,46 @@ func byLabel(ff gts.FeatureSlice) map[string][]gts.Feature {
 		out[labelOf(f)] = append(out[labelOf(f)], f)
 	}
 	return out
+}
+
+// ---- scope ------------------------------------------------------------------------------------------
+// The main random parts stay inside a small scope (short sequences, few parts), where boundary coincidences are
+// dense and the exhaustive sweeps live. The "rapid-large" parts re-use the same generators with genLarge set:
+// lengths up to 5000 (around powers of two and of ten), more parts, more features, longer guests - so that nothing a
+// check decides depends on the small scope (a defect that needs a coordinate >= 256 or a tenth part).
+var genLarge bool
+
+var magicLens = []int{15, 16, 17, 31, 32, 33, 63, 64, 65, 99, 100, 101, 127, 128, 129, 255, 256, 257, 511, 512, 513, 999, 1000, 1001, 1023, 1024, 1025, 4095, 4096, 4097}
+
+// drawLen draws a length in [lo,small] in the small scope; in the large scope from (small, 5000].
+func drawLen(t *rapid.T, lo, small int, name string) int {
+	if !genLarge {
+		return rapid.IntRange(lo, small).Draw(t, name)
+	}
+	if rapid.Bool().Draw(t, name+"-magic") {
+		return rapid.SampledFrom(magicLens).Draw(t, name)
+	}
+	return rapid.IntRange(small+1, 5000).Draw(t, name)
+}
+
+// drawCount draws a count in [lo,small] in the small scope, in [lo,large] in the large scope.
+func drawCount(t *rapid.T, lo, small, large int, name string) int {
+	if genLarge {
+		return rapid.IntRange(lo, large).Draw(t, name)
+	}
+	return rapid.IntRange(lo, small).Draw(t, name)
+}
+
+func scopeParts(small int) int {
+	if genLarge {
+		return 3 * small
+	}
+	return small
+}
+
+// rapidLargePart runs gen in the large scope.
+func rapidLargePart[C any](t *testing.T, p *Prop[C], st *Stats, n int, gen func(*rapid.T) C) {
+	genLarge = true
+	defer func() { genLarge = false }()
+	rapidPart(t, p, st, "rapid-large", n, gen)
 }
